@@ -127,7 +127,7 @@ def gen_block(rng, pattern, height):
             t = Tx([(ZERO32, MINUS1, rng.randbytes(min(sl, 100)), MINUS1)],
                    [(50, rng.randbytes(max(0, sl - 100)))], locktime=rng.randrange(1 << 30))
         else:
-            n_out = rng.choice((1, 2, 3))
+            n_out = rng.choice((1, 2, 3)) if size != 60 else 1     # 60: the minimal transaction (one input, one output, empty scripts)
             sl = max(0, size - 60 - 9 * n_out)
             t = Tx([(rng.randbytes(32), rng.randrange(4), b'', 0)],
                    [(rng.randrange(1000), rng.randbytes(sl if j == 0 else 0)) for j in range(n_out)],
@@ -141,6 +141,7 @@ def block_patterns(rng, thorough):
         [70], [300], [70, 70], [70] * 9,
         [400, 70, 70], [70, 400, 70], [70, 70, 400], [400, 400], [70, 300, 70, 300, 70],
         [70] * 3 + [200] + [70] * 3, [500], [90, 61, 62, 63, 64, 65, 66, 250],
+        [70, 60], [300, 70, 60], [70, 60, 60, 60], [90, 60, 300, 60],      # blocks ending in (or made of) minimal 60-byte txs
     ]
     if thorough:
         P += [[2000, 70, 70, 900], [70, 70, 2500, 70], [70] * 40, [1000, 1000, 1000], [70, 3000],
